@@ -6,7 +6,10 @@ on every run (`Facts.<stack>.flows`, `Facts.<stack>.recordTable`, …).
 Three layers:
 
 1. `compile` turns the raw skeleton (strings) into a typed program: per function a list of
-   guarded ops (`read`, `must T`, `opt T`, `ccs`, `call f`, marks, jumps).  Only string
+   guarded ops (`read`, `must T`, `opt T`, `ccs`, `call f`, marks, jumps).  A guard is the
+   conjunction of the enclosing Go conditions and is re-evaluated at every op of the block, so
+   the state an atom reads must not be changed inside the block it guards (it is not: `got` is
+   set by the assertion before the block, the cookie verdict when a ClientHello is read).  Only string
    *equality* is used, so the kernel can evaluate it.  A guard atom or an op that the
    interpreter would need but does not know makes `compile` return `none` — nothing is guessed.
 2. an interpreter of that program over a small control state (call stack, the message read
@@ -109,6 +112,7 @@ inductive Atom
 inductive Mark
   | establishKeys | processCertsFromClient | generateClientKeyExchange
   | set (v : Var)
+  | hvrSent                      -- DTLCP server: a HelloVerifyRequest was written
   deriving DecidableEq, Repr
 
 inductive Op
@@ -241,6 +245,7 @@ def compileOp (names : List String) (cases : List HsType) (r : RawOp) : Option P
   else if op == "case" || op == "default" then some (.op ⟨[], .nop⟩)
   else if op == "break" then (compileGuard cases g).map (fun a => .brk a arg)
   else if op == "continue" then (compileGuard cases g).map (fun a => .cont a arg)
+  else if op == "write" && arg == "hvr" then guarded (.mark .hvrSent)
   else if op == "write" || op == "transcript" then some (.op ⟨[], .nop⟩)
   else none
 
@@ -448,12 +453,13 @@ structure Ctl where
   keys : Bool                     -- establishKeys ran: the next cipher state is prepared
   sets : List Var
   cookieSent : Bool               -- DTLCP server: a HelloVerifyRequest went out
+  helloCookie : Bool              -- DTLCP server: the ClientHello in hand carries the cookie sent before
   completed : Bool
   deriving DecidableEq, Repr
 
 def Ctl.init (root : Nat) : Ctl :=
   { stack := [(root, 0)], cur := none, got := [], peerCerts := false, keys := false, sets := [],
-    cookieSent := false, completed := false }
+    cookieSent := false, helloCookie := false, completed := false }
 
 def curType (q : Ctl) : Option HsType := q.cur.bind hsTypeOf
 
@@ -467,7 +473,7 @@ def evalAtom (cfg : Cfg) (q : Ctl) : Atom → Bool
   | .caseOf t => curType q == some t
   | .caseOther ts => match curType q with | some t => !ts.contains t | none => true
   | .isSet v b => q.sets.contains v == b
-  | .cookieBad => !q.cookieSent
+  | .cookieBad => !q.helloCookie
 
 def setGot (l : List HsType) (t : HsType) (b : Bool) : List HsType :=
   if b then (if l.contains t then l else t :: l) else l.erase t
@@ -491,8 +497,10 @@ def applyMark (cfg : Cfg) (P : Prog) (q : Ctl) : Mark → Option Ctl
     -- encryption key pair, which is only looked up when a CertificateRequest was processed
     if cfg.ecdhe && ((P.ecdheNeedsSkx && !q.got.contains .serverKeyExchange) || !q.got.contains .certificateRequest)
     then none else some q
-  | .set v => some { q with sets := if q.sets.contains v then q.sets else v :: q.sets,
-                            cookieSent := q.cookieSent }
+  | .set v => some { q with sets := if q.sets.contains v then q.sets else v :: q.sets }
+  | .hvrSent =>
+    -- the scripted client echoes the latest cookie: every ClientHello after a HelloVerifyRequest is valid
+    some { q with cookieSent := true }
 
 def withPc (q : Ctl) (f pc : Nat) (rest : List (Nat × Nat)) : Ctl := { q with stack := (f, pc) :: rest }
 
@@ -578,7 +586,10 @@ def next (cfg : Cfg) (P : Prog) : Q → Kind → Outcome Q
     | .hand =>
       -- bytes go to c.hand; only a blocked readHandshake picks the message up
       if expect || !k.isHandshake then .fail
-      else ofHalt k P (advance cfg P fuel { bumpPc q with cur := some k })
+      else ofHalt k P (advance cfg P fuel
+        { bumpPc q with cur := some k,
+                        -- the scripted client echoes the latest cookie it was given
+                        helloCookie := if k == .clientHello then q.cookieSent else q.helloCookie })
     | .change =>
       -- c.in.changeCipherSpec(): alertInternalError when no cipher was prepared
       if !expect || !q.keys then .fail
